@@ -15,11 +15,12 @@ import (
 type AtomID int
 
 type Atom struct {
-	ID   AtomID
-	Kind string // "var", "fn", "cond", "ite"
-	Name string
-	Args []*RF
-	Int  bool // known integer-valued
+	ID       AtomID
+	Kind     string // "var", "fn", "cond", "ite"
+	Name     string
+	Args     []*RF
+	Int      bool // known integer-valued
+	Unsigned bool
 }
 
 type term struct {
